@@ -68,7 +68,8 @@ package soyhtml
 // cancels autoescaping; otherwise it issues exactly one raw write. Nothing else
 // is written by evalPrint itself.
 //@ func (*state).evalPrint
-//@   props C03
+//@   like renderFn
+//@   props C03 C08 C09
 //@   nosafety
 //@   ghost mode ast.AutoescapeType = 0
 //@   ghost anyCancel bool = false
@@ -144,7 +145,8 @@ package soyhtml
 // render closure returns normally after one of its own writes failed and none
 // issues a further write after a failure.
 //@ func (*state).walk
-//@   props C12
+//@   like renderFn
+//@   props C12 C08 C09
 //@   nosafety
 //@   modifies *
 //@   ghost werr bool = false
@@ -171,7 +173,8 @@ package soyhtml
 //@     noterm
 
 //@ func (*state).evalMsgParts
-//@   props C12
+//@   like renderFn
+//@   props C12 C08 C09
 //@   nosafety
 //@   modifies *
 //@   ghost werr bool = false
@@ -251,7 +254,8 @@ package soyhtml
 // sub-expression the state again points at the enclosing command, so the error
 // built by the entry state names the outermost failing command.
 //@ func (*state).eval
-//@   props C19
+//@   like renderFn
+//@   props C19 C08 C09
 //@   nosafety
 //@   modifies *
 //@   ensures[restores-current-node] s.node == old(s.node)
@@ -277,3 +281,58 @@ package soyhtml
 //@   props C06
 //@   recoverby (*state).errRecover
 //@   modifies *
+
+// ---------------------------------------------------------------------------
+// C08 / C09: write confinement. Every function of the render closure may
+// change its own execution state (the state object, its scope stack and the
+// maps of frames it pushed) but leaves every object of the compiled bundle
+// that existed before the call untouched: no field of any ast node, no field
+// of the template registry / templates, no pre-existing slice backing array
+// (AST child lists, argument lists, caller-provided data lists, byte texts),
+// no package-level registry. Concurrent renders therefore share only memory
+// that none of them writes (C09), and a render leaves the bundle as it found
+// it whatever happened before (C08). Calls through function values
+// (user-registered functions and print directives) are assumed to respect the
+// same frame.
+//@ functype *
+//@   modifies *
+//@   preserves F!github.com/robfig/soy/ast.* F!github.com/robfig/soy/template.* E!Iface E!Int E!Str E!|S!github.com/robfig/soy/template.* G!github.com/robfig/soy/*
+
+//@ functype renderFn
+//@   params s
+//@   props C08 C09
+//@   modifies *
+//@   preserves F!github.com/robfig/soy/ast.* F!github.com/robfig/soy/template.* E!Iface E!Int E!Str E!|S!github.com/robfig/soy/template.* G!github.com/robfig/soy/*
+//@ func (*state).evalMsg
+//@   like renderFn
+//@   nosafety
+//@ func (*state).findPluralNode
+//@   like renderFn
+//@   nosafety
+//@ func (*state).walkPlural
+//@   like renderFn
+//@   nosafety
+//@ func (*state).walkMsgBody
+//@   like renderFn
+//@   nosafety
+//@ func (*state).evalCall
+//@   like renderFn
+//@   nosafety
+//@ func (*state).renderBlock
+//@   like renderFn
+//@   nosafety
+//@ func (*state).evalFunc
+//@   like renderFn
+//@   nosafety
+//@ func (*state).evalDataRef
+//@   like renderFn
+//@   nosafety
+//@ func (*state).eval2def
+//@   like renderFn
+//@   nosafety
+//@ func (*state).evaldef
+//@   like renderFn
+//@   nosafety
+//@ func (*state).at
+//@   like renderFn
+//@   nosafety
